@@ -65,3 +65,16 @@ End WithScene.
 (* affine section model of a (blend of) linear airfoil(s): CL = A*alpha + B *)
 Definition lin_section (A B CLa aL0 : float) : section float :=
   mk_section (fun al _ _ => A * al + B) (fun _ _ _ => CLa) (fun _ _ _ => 0) (fun _ _ _ => 0) (fun _ _ => aL0).
+
+(* _calc_invariant_flow_properties for one aircraft: per control point the body offsets from the CG of the control point and of the
+   two joints; expected: v_inf_and_rot and the two trailing directions of the live scene *)
+From MuxV Require Import Model.Flow.
+Definition chk_flow (tol : float) (constrain match_pro : bool) (q : quat float) (v wind w : v3 float)
+           (pts : list (v3 float * v3 float * v3 float)) (expect : list (v3 float * v3 float * v3 float)) : bool :=
+  Nat.eqb (List.length pts) (List.length expect) &&
+  forallb (fun pe : (v3 float * v3 float * v3 float) * (v3 float * v3 float * v3 float) =>
+             let '((rc, r0, r1), (ev, e0, e1)) := pe in
+             v3_near tol 0 (v_inf_and_rot q v wind w rc) ev &&
+             v3_near tol 1 (trailing_dir constrain q (joint_v_inf match_pro q v wind w r0)) e0 &&
+             v3_near tol 1 (trailing_dir constrain q (joint_v_inf match_pro q v wind w r1)) e1)
+          (combine pts expect).
